@@ -6,21 +6,23 @@ import random
 from .. import core
 
 
-def _fj(kind, NJ, NOPS, NM, mno, unequal=False, B=1, elig="all"):
-    return {"id": f"C07:{kind} {NJ}x{NOPS}x{NM} mask_no_ops={mno} unequal={unequal} B={B} elig={elig}", "module": "vf.sched", "func": "fjsp_job",
-            "params": dict(kind=kind, NJ=NJ, NOPS=NOPS, NM=NM, mask_no_ops=mno, unequal=unequal, B=B, elig=elig)}
+def _fj(kind, NJ, NOPS, NM, mno, unequal=False, B=1, elig="all", source="hand"):
+    return {"id": f"C07:{kind} {NJ}x{NOPS}x{NM} mask_no_ops={mno} unequal={unequal} B={B} elig={elig} instances={source}", "module": "vf.sched", "func": "fjsp_job",
+            "params": dict(kind=kind, NJ=NJ, NOPS=NOPS, NM=NM, mask_no_ops=mno, unequal=unequal, B=B, elig=elig, source=source)}
 
 
 def _ff(NJ, NS, NMA, D, flatten=True):
-    return {"id": f"C07:ffsp {NJ} jobs x {NS} stages x {NMA} machines D<={D}", "module": "vf.sched", "func": "ffsp_job", "params": dict(NJ=NJ, NS=NS, NMA=NMA, D=D, flatten=flatten)}
+    return {"id": f"C07:ffsp {NJ} jobs x {NS} stages x {NMA} machines D<={D} flatten_stages={flatten}", "module": "vf.sched", "func": "ffsp_job", "params": dict(NJ=NJ, NS=NS, NMA=NMA, D=D, flatten=flatten)}
 
 
 def plan(tier, seed):
     jobs = [_fj("fjsp", 2, 2, 2, True), _fj("fjsp", 2, 2, 2, True, unequal=True), _fj("fjsp", 2, 2, 2, True, elig="first"), _fj("jssp", 2, 2, 2, True),
-            _fj("fjsp", 2, 1, 2, False), _fj("jssp", 2, 1, 2, False), _ff(2, 2, 1, 2), _ff(2, 2, 2, 2)]
+            _fj("fjsp", 2, 1, 2, False), _fj("jssp", 2, 1, 2, False), _ff(2, 2, 1, 2), _ff(2, 2, 2, 2), _ff(2, 2, 1, 2, flatten=False), _ff(2, 2, 2, 2, flatten=False),
+            # instances produced by the REAL bundled generators (every sampler outcome), incl. padded ones with fewer ops than slots
+            _fj("jssp", 2, 2, 2, True, source="generator")]
     jobs.append({"id": "C07:smtwtp n=3", "module": "vf.episodes", "func": "episode_job", "params": dict(spec="smtwtp", variant=None, n=3, B=1, mode="C01")})
     if tier == "thorough":
-        jobs += [_fj("fjsp", 2, 2, 2, False), _fj("jssp", 2, 2, 2, False), _fj("fjsp", 2, 2, 2, True, elig="symbolic"), _fj("fjsp", 3, 1, 2, True), _fj("jssp", 3, 1, 2, True),
+        jobs += [_fj("fjsp", 2, 2, 2, True, source="generator"), _fj("jssp", 2, 2, 2, False, source="generator"), _fj("fjsp", 2, 2, 2, False), _fj("jssp", 2, 2, 2, False), _fj("fjsp", 2, 2, 2, True, elig="symbolic"), _fj("fjsp", 3, 1, 2, True), _fj("jssp", 3, 1, 2, True),
                  _fj("fjsp", 2, 2, 2, True, unequal=True, B=2), _ff(3, 2, 1, 2), _ff(2, 2, 1, 3), _ff(2, 3, 1, 2)]
         jobs.append({"id": "C07:smtwtp n=4 B=2", "module": "vf.episodes", "func": "episode_job", "params": dict(spec="smtwtp", variant=None, n=4, B=2, mode="C01")})
     rng = random.Random(seed)
